@@ -1317,15 +1317,38 @@ func (fc *funcContext) translateImplicitConversion(expr ast.Expr, desiredType ty
 			// wrap JS object into js.Object struct when converting to interface
 			return fc.formatExpr("new $jsObjectPtr(%e)", expr)
 		}
+		// Arrays and structs are values: an interface holds its own copy, unless
+		// the operand is a temporary that nothing else can refer to.
+		needsClone := !fc.isTemporaryValue(expr)
 		if isWrapped(exprType) {
+			if _, isArray := exprType.Underlying().(*types.Array); isArray && needsClone {
+				return fc.formatExpr("new %1s($clone(%2e, %1s))", fc.typeName(exprType), expr)
+			}
 			return fc.formatExpr("new %s(%e)", fc.typeName(exprType), expr)
 		}
 		if _, isStruct := exprType.Underlying().(*types.Struct); isStruct {
+			if needsClone {
+				return fc.formatExpr("new %1s($clone(%2e, %1s))", fc.typeName(exprType), expr)
+			}
 			return fc.formatExpr("new %1e.constructor.elem(%1e)", expr)
 		}
 	}
 
 	return fc.translateExpr(expr)
+}
+
+// isTemporaryValue reports whether the expression yields a freshly created
+// value (a composite literal or the result of a function call), which can be
+// used without copying it first.
+func (fc *funcContext) isTemporaryValue(expr ast.Expr) bool {
+	switch e := astutil.RemoveParens(expr).(type) {
+	case *ast.CompositeLit:
+		return true
+	case *ast.CallExpr:
+		// A conversion is not a call: T(x) still denotes the storage of x.
+		return !fc.pkgCtx.Types[e.Fun].IsType()
+	}
+	return false
 }
 
 func (fc *funcContext) translateConversionToSlice(expr ast.Expr, desiredType types.Type) *expression {
